@@ -927,7 +927,7 @@ func (g *kGen) stmt(depth int) *kStmt {
 			if g.r.Intn(10) < 7 {
 				return &kStmt{k: "rng", x: x, e: small(), a: body()}
 			}
-			// the bound is a bare variable (the shape of F51, repaired by 231dea3): declared just before
+			// the bound is a bare variable (the shape of F51, repaired by 716c992): declared just before
 			// the loop, and only ever assigned small values inside it
 			g.push()
 			bnd, ok := g.declName(isIntName, generalInts)
@@ -1007,7 +1007,7 @@ func level2(s *kStmt, encl []map[int]bool, found *bool) {
 	}
 }
 
-// redeclTemplate: programs of the shape of F52 (repaired by 1c8103f): the body of a three-clause or range loop
+// redeclTemplate: programs of the shape of F52 (repaired by 26ad67e): the body of a three-clause or range loop
 // declares, at its top level, a variable with the loop variable's name (before the repair cfg.go turned that
 // define into a nop, and an operator expression on the right crashed the compiler).
 func redeclTemplate(r *rand.Rand) *kStmt {
@@ -1104,7 +1104,7 @@ func genClos(r *rand.Rand) (string, string, map[string]bool) {
 
 // closClass: the divergence class of a program of this fragment (a decidable predicate of the input);
 // "" = none known. The two classes this stream found — range-int-bound-variable (F51) and
-// loopvar-redeclared-in-body (F52) — are repaired (231dea3, 1c8103f); their shapes stay in the stream, unlabelled.
+// loopvar-redeclared-in-body (F52) — are repaired (716c992, 26ad67e); their shapes stay in the stream, unlabelled.
 func closClass(term string, feat map[string]bool) string {
 	return ""
 }
